@@ -46,6 +46,55 @@ def murmur3(data: bytes, seed: int = 0) -> int:
     return h
 
 
+def _inv_fmix(h):
+    """inverse of the finalisation mix (each step is a bijection of 32-bit words)"""
+    h ^= h >> 16
+    h = (h * pow(0xC2B2AE35, -1, 1 << 32)) & M
+    h ^= (h >> 13) ^ (h >> 26)
+    h = (h * pow(0x85EBCA6B, -1, 1 << 32)) & M
+    h ^= h >> 16
+    return h
+
+
+def preimage_suffix(prefix: bytes, target: int, seed: int = 0, printable=True, tries=200000):
+    """-> a byte string S (pad + 4 bytes, printable ASCII without blanks when asked) such that murmur3(prefix + S, seed) == target.
+    The last full block of the input is solved for: every step of the hash is a bijection of the 32-bit state."""
+    ok = set(range(0x30, 0x3A)) | set(range(0x41, 0x5B)) | set(range(0x61, 0x7B)) if printable else set(range(256)) - {0, 9, 10, 11, 12, 13, 32}
+    inv5, invc1, invc2 = pow(5, -1, 1 << 32), pow(0xCC9E2D51, -1, 1 << 32), pow(0x1B873593, -1, 1 << 32)
+    pad0 = b"a" * ((-len(prefix)) % 4)
+    alphabet = b"abcdefghijklmnopqrstuvwxyz0123456789"
+    for t in range(tries):
+        filler, x = b"", t
+        for _ in range(4):
+            filler += alphabet[x % 36:x % 36 + 1]
+            x //= 36
+        head = prefix + pad0 + filler
+        n = len(head) + 4
+        # state after the blocks of head
+        h = seed & M
+        for i in range(len(head) // 4):
+            (k,) = struct.unpack_from("<I", head, 4 * i)
+            k = (k * 0xCC9E2D51) & M
+            k = _rotl(k, 15)
+            k = (k * 0x1B873593) & M
+            h ^= k
+            h = _rotl(h, 13)
+            h = (h * 5 + 0xE6546B64) & M
+        want_h = _inv_fmix(target) ^ n                       # state needed after the last block
+        x = ((want_h - 0xE6546B64) * inv5) & M
+        x = _rotl(x, 32 - 13)                                # undo the rotation
+        k = x ^ h
+        k = (k * invc2) & M
+        k = _rotl(k, 32 - 15)
+        k = (k * invc1) & M
+        last = struct.pack("<I", k)
+        if all(b in ok for b in last):
+            out = pad0 + filler + last
+            assert murmur3(prefix + out, seed) == target
+            return out
+    return None
+
+
 VECTORS = [
     (b"", 0, 0x00000000),
     (b"", 1, 0x514E28B7),
